@@ -285,6 +285,7 @@ inline void run_sub(const Sub& sub, bool thorough) {
   if (!sub.exhaustive) E.exhaustive_all = false;
   long n = thorough ? sub.n_thorough : sub.n_quick;
   n = (long)std::ceil(n * env_scale()); if (n < 1) n = 1;
+  if (const char* mx = std::getenv("VERIF_MAXN")) { const long m = std::atol(mx); if (m > 0 && n > m) n = m; }
   int recorded = 0;
   int shard_i = 0, shard_n = 1;
   if (const char* sh = std::getenv("VERIF_SHARD")) std::sscanf(sh, "%d/%d", &shard_i, &shard_n);
